@@ -47,13 +47,13 @@ type Val struct {
 	Plen int
 }
 
-func Bool(b bool) Val               { return Val{K: KBool, B: b} }
-func Long(i int64) Val              { return Val{K: KLong, I: i} }
-func Str(s string) Val              { return Val{K: KString, S: s} }
-func Entity(t, id string) Val       { return Val{K: KEntity, T: t, S: id} }
-func Decimal(units int64) Val       { return Val{K: KDecimal, I: units} }
-func Datetime(ms int64) Val         { return Val{K: KDatetime, I: ms} }
-func Duration(ms int64) Val         { return Val{K: KDuration, I: ms} }
+func Bool(b bool) Val         { return Val{K: KBool, B: b} }
+func Long(i int64) Val        { return Val{K: KLong, I: i} }
+func Str(s string) Val        { return Val{K: KString, S: s} }
+func Entity(t, id string) Val { return Val{K: KEntity, T: t, S: id} }
+func Decimal(units int64) Val { return Val{K: KDecimal, I: units} }
+func Datetime(ms int64) Val   { return Val{K: KDatetime, I: ms} }
+func Duration(ms int64) Val   { return Val{K: KDuration, I: ms} }
 func IP4(a, b, c, d byte, plen int) Val {
 	v := Val{K: KIP, Plen: plen}
 	v.Addr[0], v.Addr[1], v.Addr[2], v.Addr[3] = a, b, c, d
